@@ -4,14 +4,18 @@ import (
 	"encoding/json"
 	"fmt"
 	"os"
+	"reflect"
 	"sort"
 	"strings"
+	"sync/atomic"
 	"testing"
 	"testing/synctest"
 	"time"
+	"unsafe"
 
 	eiolog "github.com/zishang520/engine.io/v2/log"
 	"github.com/zishang520/engine.io/v2/simrt"
+	"github.com/zishang520/engine.io/v2/utils"
 )
 
 func init() {
@@ -63,6 +67,7 @@ var families = map[string]func(sc *Scenario) family{}
 func RunScenario(t *testing.T, sc *Scenario, src simrt.Source, keepTape bool) (res *Result) {
 	res = &Result{}
 	pinRandom(sc.Seed)
+	resetIDCounter()
 	mk := families[sc.Family]
 	if mk == nil {
 		panic("unknown family " + sc.Family)
@@ -112,6 +117,18 @@ func RunScenario(t *testing.T, sc *Scenario, src simrt.Source, keepTape bool) (r
 // hashEvents hashes the history with session ids replaced by client aliases:
 // ids embed a process-wide sequence number, so they differ between processes
 // although the execution is the same.
+// resetIDCounter zeroes the process-global sequence number that
+// utils.Base64Id mixes into every session id, so that the same execution
+// produces the same ids in every process.
+func resetIDCounter() {
+	f := reflect.ValueOf(utils.Base64Id()).Elem().FieldByName("sequenceNumber")
+	if f.IsValid() && f.CanAddr() {
+		if f.Type().Size() == 8 {
+			(*atomic.Uint64)(unsafe.Pointer(f.UnsafeAddr())).Store(0)
+		}
+	}
+}
+
 func hashEvents(evs []Ev, sids map[string]string) uint64 {
 	h := uint64(14695981039346656037)
 	var pairs []string
